@@ -432,7 +432,9 @@ SPEC_RECV = {
     # calls whose boolean result is tested in a condition and remembered in a ghost register
     "cond_calls": {"nice_component_verify_remote_candidate": 1},
     "bool_result_calls": {"conn_check_handle_inbound_stun"},
-    "pure": set(), "reply": set(),     # every call is an event here; the theorems are about the returned status only
+    "pure": set(), "reply": set(),     # every call is an event here
+    # kind 5 = the datagram's payload is handed on as the peer's data without being returned: queued for pseudo-TCP, or fed to it
+    "marked": {"g_queue_push_tail": 5, "pseudo_tcp_socket_notify_message": 5},
 }
 
 
